@@ -716,5 +716,35 @@ theorem slotOf_injective (gs : List GateDesc) (i j : ℕ) (hi : i < gs.length) (
         · rw [if_neg tj] at h2; exact absurd h2 (by simp)
     · rw [if_neg ti] at h1; exact absurd h1 (by simp)
 
+/-! ### hand-off bookkeeping -/
+
+theorem insertByName_of_lt {β : Type} (p q : String × β) (l : List (String × β)) (h : p.1 < q.1) :
+    insertByName p (q :: l) = p :: q :: l := by simp [insertByName, h]
+
+theorem sortByName_of_sorted {β : Type} (l : List (String × β)) (h : l.Pairwise fun a b => a.1 < b.1) : sortByName l = l := by
+  induction l with
+  | nil => rfl
+  | cons p l ih =>
+    rw [List.pairwise_cons] at h
+    show insertByName p (sortByName l) = p :: l
+    rw [ih h.2]
+    cases l with
+    | nil => rfl
+    | cons q l => exact insertByName_of_lt p q l (h.1 q List.mem_cons_self)
+
+theorem unflatten_names {β : Type} (sh : List (String × ℕ)) (θ : List β) : (unflatten sh θ).map (·.1) = sh.map (·.1) := by
+  induction sh generalizing θ with
+  | nil => rfl
+  | cons p sh ih => simp [unflatten, ih]
+
+theorem flatMap_unflatten {β : Type} (sh : List (String × ℕ)) (θ : List β) (hlen : θ.length = (sh.map (·.2)).sum) :
+    (unflatten sh θ).flatMap (·.2) = θ := by
+  induction sh generalizing θ with
+  | nil => simp at hlen; simp [unflatten, hlen]
+  | cons p sh ih =>
+    simp only [List.map_cons, List.sum_cons] at hlen
+    simp only [unflatten, List.flatMap_cons]
+    rw [ih (θ.drop p.2) (by simp [List.length_drop]; omega), List.take_append_drop]
+
 end Backward
 end Numqi
